@@ -5,16 +5,16 @@
 use crate::{Failure, SearchResult};
 use akd::vx_export::{c10_fault_at, C10Outcome};
 
-fn outcome(cfg: u8, cache: bool, k: i64, rt: &tokio::runtime::Runtime) -> Option<C10Outcome> {
+fn outcome(cfg: u8, cache: bool, k: i64, other: bool, par: bool, rt: &tokio::runtime::Runtime) -> Option<C10Outcome> {
     let r = if cfg == 0 {
-        rt.block_on(c10_fault_at::<akd::WhatsAppV1Configuration>(cache, k))
+        rt.block_on(c10_fault_at::<akd::WhatsAppV1Configuration>(cache, k, other, par))
     } else {
-        rt.block_on(c10_fault_at::<akd::ExperimentalConfiguration<akd::ExampleLabel>>(cache, k))
+        rt.block_on(c10_fault_at::<akd::ExperimentalConfiguration<akd::ExampleLabel>>(cache, k, other, par))
     };
     r.ok()
 }
 
-fn judge(cfg: u8, cache: bool, k: i64, o: &C10Outcome, out: &mut Vec<Failure>) {
+fn judge(cfg: u8, cache: bool, k: i64, other: bool, par: bool, o: &C10Outcome, out: &mut Vec<Failure>) {
     let mut bad = vec![];
     if let Some(err) = &o.publish_err {
         if o.epoch_after != o.epoch_before || !o.hash_unchanged { bad.push(format!("publish returned Err ({err}) but the directory now reports epoch {} (was {})", o.epoch_after, o.epoch_before)); }
@@ -24,13 +24,16 @@ fn judge(cfg: u8, cache: bool, k: i64, o: &C10Outcome, out: &mut Vec<Failure>) {
         if !o.final_matches_reference { bad.push("after the retry the state differs from the fault-free run".to_string()); }
     } else if o.epoch_after != o.epoch_before + 1 {
         bad.push(format!("publish returned Ok but the epoch is {} (was {})", o.epoch_after, o.epoch_before));
+    } else if !o.final_matches_reference {
+        bad.push("publish returned Ok although a storage operation failed, and the resulting root hash is not the fault-free one".to_string());
     }
     for b in bad {
         out.push(Failure {
-            clause: "directory_publish/Directory.publish__after_commit#E_no_failure_after_commit".into(),
-            case: vec!["c10".into(), cfg.to_string(), (cache as u8).to_string(), k.to_string()],
-            input: format!("config {}, {} cache: publish [(a,a1),(b,b1)], then publish [(a,a2),(c,c1)] with database operation #{k} of that call failing",
-                           if cfg == 0 { "WhatsAppV1" } else { "Experimental" }, if cache { "with" } else { "without" }),
+            clause: (if b.contains("but the directory now reports epoch") { "directory_publish/Directory.publish__after_commit#E_no_failure_after_commit" } else { "replay/c10#single_fault_enumeration" }).into(),
+            case: vec!["c10".into(), cfg.to_string(), (cache as u8).to_string(), k.to_string(), (other as u8).to_string(), (par as u8).to_string()],
+            input: format!("config {}, {} cache, {} insertion: publish 6 labels, then publish [(a,a2),(c,c1),(e,e2),(i,i1),(j,j1)] with database operation #{k} of that call failing, then publish {}",
+                           if cfg == 0 { "WhatsAppV1" } else { "Experimental" }, if cache { "with" } else { "without" }, if par { "parallel" } else { "sequential" },
+                           if other { "a different batch [(b,b2),(d,d1)]" } else { "the same batch again" }),
             expected: "an error leaves the directory exactly as it was; a retry ends in the fault-free state".into(),
             observed: b,
             finding_id: None,
@@ -44,18 +47,24 @@ pub fn search(_seed: u64, _full: bool, rt: &tokio::runtime::Runtime) -> SearchRe
     for cfg in 0..2u8 {
         for cache in [false, true] {
             // the number of operations of the fault-free call bounds k
-            let total = match outcome(cfg, cache, i64::MAX, rt) { Some(o) => o.ops_in_publish, None => 0 };
-            for k in 0..total {
-                if let Some(o) = outcome(cfg, cache, k, rt) { n += 1; judge(cfg, cache, k, &o, &mut out); }
+            for par in [false, true] {
+                let total = match outcome(cfg, cache, i64::MAX, false, par, rt) { Some(o) => o.ops_in_publish, None => 0 };
+                for k in 0..total {
+                    for other in [false, true] {
+                        if let Some(o) = outcome(cfg, cache, k, other, par, rt) { n += 1; judge(cfg, cache, k, other, par, &o, &mut out); }
+                    }
+                }
             }
         }
     }
-    SearchResult { evaluations: n, failures: out, summary: "BOUNDED: one two-epoch history, every single database-operation fault of the second publish, with/without cache, both configurations".into() }
+    SearchResult { evaluations: n, failures: out, summary: "BOUNDED: one two-epoch history, every single database-operation fault of the second publish, followed by the same or by a different batch, with/without cache, both configurations".into() }
 }
 
 pub fn replay(case: &[&str], rt: &tokio::runtime::Runtime) -> (bool, String) {
     let (cfg, cache, k): (u8, bool, i64) = (case[0].parse().unwrap(), case[1] == "1", case[2].parse().unwrap());
+    let other = case.get(3).map(|s| *s == "1").unwrap_or(false);
+    let par = case.get(4).map(|s| *s == "1").unwrap_or(false);
     let mut out = vec![];
-    if let Some(o) = outcome(cfg, cache, k, rt) { judge(cfg, cache, k, &o, &mut out); }
+    if let Some(o) = outcome(cfg, cache, k, other, par, rt) { judge(cfg, cache, k, other, par, &o, &mut out); }
     match out.first() { Some(f) => (true, format!("{}: expected {}, observed {}", f.input, f.expected, f.observed)), None => (false, "holds".into()) }
 }
